@@ -52,17 +52,18 @@ theorem fl_mapIdx_range {β : Type} (l : List α) (g : Nat → α → β) :
       List.getElem?_eq_none (l := l) (by omega)]
     rfl
 
-/-- **an overwrite conserves elements**: the new buffer plus the replaced cells are the old buffer plus the written values -/
-theorem fl_overwrite_conserves (t : TD α) (f : Nat × Nat → Option α) :
-    (t.asView.updCells t.data f ++ t.overwritten f).Perm (t.data ++ t.written f) := by
-  unfold VW.updCells TD.overwritten TD.written
+/-- **an overwrite through any window conserves elements**: the new buffer plus the replaced cells are the old buffer plus the
+    written values -/
+theorem fl_overwrite_conserves_v (v : VW) (buf : List α) (f : Nat × Nat → Option α) :
+    (v.updCells buf f ++ v.overwritten buf f).Perm (buf ++ v.written buf.length f) := by
+  unfold VW.updCells VW.overwritten VW.written
   rw [fl_mapIdx_range]
-  conv => rhs; lhs; rw [fl_range_self t.data]
+  conv => rhs; lhs; rw [fl_range_self buf]
   apply fl_pointwise
   intro p hp
-  have hlt : p < t.data.length := List.mem_range.1 hp
+  have hlt : p < buf.length := List.mem_range.1 hp
   rw [List.getElem?_eq_getElem hlt]
-  cases hc : t.asView.coord? p with
+  cases hc : v.coord? p with
   | none => exact List.Perm.refl _
   | some cr =>
     cases hf : f cr with
@@ -72,6 +73,11 @@ theorem fl_overwrite_conserves (t : TD α) (f : Nat × Nat → Option α) :
     | some y =>
       simp only [Option.map_some, Option.bind_some, hf, Option.getD_some, Option.toList_some]
       exact List.Perm.swap _ _ _
+
+/-- … on an owned array -/
+theorem fl_overwrite_conserves (t : TD α) (f : Nat × Nat → Option α) :
+    (t.asView.updCells t.data f ++ t.overwritten f).Perm (t.data ++ t.written f) :=
+  fl_overwrite_conserves_v t.asView t.data f
 
 /-! ### cell permutations conserve the buffer -/
 
@@ -115,8 +121,21 @@ def MOp.permuting : MOp α → Prop
   | .swap .. | .swapRows .. | .swapCols .. | .translate .. | .flipRows | .flipCols | .sortRow .. | .sortCol .. => True
   | _ => False
 
-theorem fl_spec_perm (lim : Nat) (t : TD α) (h : t.Inv) (op : MOp α) (hs : op.Sane) (hp : op.permuting)
-    (d : List α) (hd : op.spec t.asView lim t.data = .ok d) : d.Perm t.data := by
+/-- a cell bijection of any window conserves the root buffer -/
+theorem fl_gather_perm_v (v : VW) (buf : List α) (h : v.Inv buf.length) (g : Nat × Nat → Nat × Nat)
+    (hg : ∀ c r, c < v.numCols → r < v.numRows → (g (c, r)).1 < v.numCols ∧ (g (c, r)).2 < v.numRows)
+    (hinj : ∀ c r c' r', c < v.numCols → r < v.numRows → c' < v.numCols → r' < v.numRows →
+      g (c, r) = g (c', r') → (c, r) = (c', r')) :
+    (gather buf (v.mapCells g)).Perm buf :=
+  ow_gather_perm buf _ (fun _ hp => VW.mapCells_lt h g hg hp)
+    (fun p q _ _ he => ow_mapCells_inj h g hg hinj p q he)
+
+/-- an array of the window's dimensions (to reuse the `hs_*_cells` lemmas, which only look at the dimensions) -/
+private def dimsOf (v : VW) : TD α := ⟨[], v.numRows, v.numCols⟩
+
+/-- the successful result of a permuting operation on any receiver is a permutation of the root buffer -/
+theorem fl_spec_perm_v (lim : Nat) (v : VW) (buf : List α) (h : v.Inv buf.length) (op : MOp α) (hs : op.Sane) (hp : op.permuting)
+    (d : List α) (hd : op.spec v lim buf = .ok d) : d.Perm buf := by
   cases op with
   | set c r x => exact absurd hp id
   | setInRow r c x => exact absurd hp id
@@ -126,77 +145,76 @@ theorem fl_spec_perm (lim : Nat) (t : TD α) (h : t.Inv) (op : MOp α) (hs : op.
   | copyWithin tl br dest => exact absurd hp id
   | swap c1 r1 c2 r2 =>
     simp only [MOp.spec] at hd
-    by_cases hr : c1 < t.numCols ∧ c2 < t.numCols ∧ r1 < t.numRows ∧ r2 < t.numRows
-    · rw [if_pos (show c1 < t.asView.numCols ∧ c2 < t.asView.numCols ∧ r1 < t.asView.numRows ∧ r2 < t.asView.numRows from hr)] at hd
+    by_cases hr : c1 < v.numCols ∧ c2 < v.numCols ∧ r1 < v.numRows ∧ r2 < v.numRows
+    · rw [if_pos hr] at hd
       injection hd with hd
       rw [← hd]
-      exact fl_gather_perm t h _ (hs_swapCellG_cells t hr) (fun _ _ _ _ _ _ _ _ he => fl_swapCellG_inj he)
-    · rw [if_neg (show ¬ (c1 < t.asView.numCols ∧ c2 < t.asView.numCols ∧ r1 < t.asView.numRows ∧ r2 < t.asView.numRows) from hr)] at hd
+      exact fl_gather_perm_v v buf h _ (hs_swapCellG_cells (dimsOf v : TD α) hr) (fun _ _ _ _ _ _ _ _ he => fl_swapCellG_inj he)
+    · rw [if_neg hr] at hd
       cases hd
   | swapRows r1 r2 =>
     simp only [MOp.spec] at hd
-    by_cases hr : r1 < t.numRows ∧ r2 < t.numRows
-    · rw [if_pos (show r1 < t.asView.numRows ∧ r2 < t.asView.numRows from hr)] at hd
+    by_cases hr : r1 < v.numRows ∧ r2 < v.numRows
+    · rw [if_pos hr] at hd
       injection hd with hd
       rw [← hd]
-      refine fl_gather_perm t h _ (hs_swapRowsG_cells t hr) (fun c r c' r' _ _ _ _ he => ?_)
+      refine fl_gather_perm_v v buf h _ (hs_swapRowsG_cells (dimsOf v : TD α) hr) (fun c r c' r' _ _ _ _ he => ?_)
       simp only [swapRowsG, Prod.mk.injEq] at he
       rw [he.1, fl_swapIdx_inj he.2]
-    · rw [if_neg (show ¬ (r1 < t.asView.numRows ∧ r2 < t.asView.numRows) from hr)] at hd
+    · rw [if_neg hr] at hd
       cases hd
   | swapCols c1 c2 =>
     simp only [MOp.spec] at hd
-    by_cases hc : c1 < t.numCols ∧ c2 < t.numCols
-    · rw [if_pos (show c1 < t.asView.numCols ∧ c2 < t.asView.numCols from hc)] at hd
+    by_cases hc : c1 < v.numCols ∧ c2 < v.numCols
+    · rw [if_pos hc] at hd
       injection hd with hd
       rw [← hd]
-      refine fl_gather_perm t h _ (hs_swapColsG_cells t hc) (fun c r c' r' _ _ _ _ he => ?_)
+      refine fl_gather_perm_v v buf h _ (hs_swapColsG_cells (dimsOf v : TD α) hc) (fun c r c' r' _ _ _ _ he => ?_)
       simp only [swapColsG, Prod.mk.injEq] at he
       rw [he.2, fl_swapIdx_inj he.1]
-    · rw [if_neg (show ¬ (c1 < t.asView.numCols ∧ c2 < t.asView.numCols) from hc)] at hd
+    · rw [if_neg hc] at hd
       cases hd
   | translate mc mr =>
     simp only [MOp.spec] at hd
-    by_cases hm : mc ≤ t.numCols ∧ mr ≤ t.numRows
-    · rw [if_pos (show mc ≤ t.asView.numCols ∧ mr ≤ t.asView.numRows from hm)] at hd
+    by_cases hm : mc ≤ v.numCols ∧ mr ≤ v.numRows
+    · rw [if_pos hm] at hd
       injection hd with hd
       rw [← hd]
-      have hb := C15_maps_bijective t.numCols t.numRows mc mr _ (List.mem_cons_self ..)
-      exact fl_gather_perm t h _ hb.1 hb.2
-    · rw [if_neg (show ¬ (mc ≤ t.asView.numCols ∧ mr ≤ t.asView.numRows) from hm)] at hd
+      have hb := C15_maps_bijective v.numCols v.numRows mc mr _ (List.mem_cons_self ..)
+      exact fl_gather_perm_v v buf h _ hb.1 hb.2
+    · rw [if_neg hm] at hd
       cases hd
   | flipRows =>
     simp only [MOp.spec] at hd
     injection hd with hd
     rw [← hd]
-    have hb := C15_maps_bijective t.numCols t.numRows 0 0 (flipRowsG t.numRows) (by simp)
-    exact fl_gather_perm t h _ hb.1 hb.2
+    have hb := C15_maps_bijective v.numCols v.numRows 0 0 (flipRowsG v.numRows) (by simp)
+    exact fl_gather_perm_v v buf h _ hb.1 hb.2
   | flipCols =>
     simp only [MOp.spec] at hd
     injection hd with hd
     rw [← hd]
-    have hb := C15_maps_bijective t.numCols t.numRows 0 0 (flipColsG t.numCols) (by simp)
-    exact fl_gather_perm t h _ hb.1 hb.2
+    have hb := C15_maps_bijective v.numCols v.numRows 0 0 (flipColsG v.numCols) (by simp)
+    exact fl_gather_perm_v v buf h _ hb.1 hb.2
   | sortRow side row =>
     simp only [MOp.spec] at hd
-    by_cases hr : row < t.asView.numRows ∧ t.asView.numCols ≤ lim
+    by_cases hr : row < v.numRows ∧ v.numCols ≤ lim
     · rw [if_pos hr] at hd
-      have hv := (C02_owned_as_view t h).1
-      rcases hs (readWin t.data (t.asView.rowWin row)) with hside | ⟨p, hside, hp⟩
+      rcases hs (readWin buf (v.rowWin row)) with hside | ⟨p, hside, hp⟩
       · rw [hside] at hd
         cases hd
       · rw [hside] at hd
         simp only [ok_bind, pure_eq] at hd
         injection hd with hd
         rw [← hd]
-        have hin := VW.rowWin_inside hv hr.1
-        have hl : (readWin t.data (t.asView.rowWin row)).length = t.numCols := by
+        have hin := VW.rowWin_inside h hr.1
+        have hl : (readWin buf (v.rowWin row)).length = v.numCols := by
           simp only [readWin, List.length_take, List.length_drop]
-          have : (t.asView.rowWin row).len = t.numCols := rfl
+          have : (v.rowWin row).len = v.numCols := rfl
           omega
         rw [hl] at hp
-        have hb := C16_cols_bijective t.numCols t.numRows _ hp
-        refine fl_gather_perm t h _ (hs_sortColsG_cells t p hp) (fun c r c' r' hc hr' hc' hr'' he => ?_)
+        have hb := C16_cols_bijective v.numCols v.numRows _ hp
+        refine fl_gather_perm_v v buf h _ (hs_sortColsG_cells (dimsOf v : TD α) p hp) (fun c r c' r' hc hr' hc' hr'' he => ?_)
         have h2 : r = r' := by
           have := congrArg Prod.snd he
           rw [(hb.1 c r hc hr').2, (hb.1 c' r' hc' hr'').2] at this
@@ -207,19 +225,18 @@ theorem fl_spec_perm (lim : Nat) (t : TD α) (h : t.Inv) (op : MOp α) (hs : op.
       cases hd
   | sortCol side col =>
     simp only [MOp.spec] at hd
-    by_cases hc : col < t.asView.numCols ∧ t.asView.numRows ≤ lim
+    by_cases hc : col < v.numCols ∧ v.numRows ≤ lim
     · rw [if_pos hc] at hd
-      have hv := (C02_owned_as_view t h).1
-      rcases hs ((List.range t.asView.numRows).filterMap fun r => t.data[t.asView.pos col r]?) with hside | ⟨p, hside, hp⟩
+      rcases hs ((List.range v.numRows).filterMap fun r => buf[v.pos col r]?) with hside | ⟨p, hside, hp⟩
       · rw [hside] at hd
         cases hd
       · rw [hside] at hd
         simp only [ok_bind, pure_eq] at hd
         injection hd with hd
         rw [← hd]
-        rw [col_keys_length t.asView t.data hv hc.1] at hp
-        have hb := C17_rows_bijective t.numCols t.numRows _ hp
-        refine fl_gather_perm t h _ (hs_sortRowsG_cells t p hp) (fun c r c' r' hc' hr hc'' hr' he => ?_)
+        rw [col_keys_length v buf h hc.1] at hp
+        have hb := C17_rows_bijective v.numCols v.numRows _ hp
+        refine fl_gather_perm_v v buf h _ (hs_sortRowsG_cells (dimsOf v : TD α) p hp) (fun c r c' r' hc' hr hc'' hr' he => ?_)
         have h1 : c = c' := by
           have := congrArg Prod.fst he
           rw [(hb.1 c r hc' hr).2, (hb.1 c' r' hc'' hr').2] at this
@@ -228,6 +245,10 @@ theorem fl_spec_perm (lim : Nat) (t : TD α) (h : t.Inv) (op : MOp α) (hs : op.
         rw [hb.2 c r r' hr hr' (congrArg Prod.snd he)]
     · rw [if_neg hc] at hd
       cases hd
+
+theorem fl_spec_perm (lim : Nat) (t : TD α) (h : t.Inv) (op : MOp α) (hs : op.Sane) (hp : op.permuting)
+    (d : List α) (hd : op.spec t.asView lim t.data = .ok d) : d.Perm t.data :=
+  fl_spec_perm_v lim t.asView t.data (C02_owned_as_view t h).1 op hs hp d hd
 
 /-! ### the flow of an in-place operation -/
 
@@ -342,5 +363,194 @@ theorem fl_step_inplace (e : HEnv) (t : TD α) (h : t.Inv) (op : MOp α) (hw : o
   cases hsp : op.spec t.asView e.lim t.data with
   | ok d => exact ⟨fl_mflow e.lim t h op hw.1 d hsp, fl_mflow_leaked t op⟩
   | error er => exact fl_inplace_err t op
+
+/-! ### the flow of a block of calls on a view -/
+
+theorem fl_overwrite_flow_v (v : VW) (buf : List α) (f : Nat × Nat → Option α) (extra : List α) :
+    (v.updCells buf f ++ [] ++ (v.overwritten buf f ++ extra) ++ []).Perm (buf ++ (v.written buf.length f ++ extra)) := by
+  simp only [List.append_nil]
+  rw [← List.append_assoc, ← List.append_assoc]
+  exact (fl_overwrite_conserves_v v buf f).append_right extra
+
+/-- a successful in-place call on a view conserves the elements of the root buffer, with the flow `vflow` -/
+theorem fl_vflow (lim : Nat) (v : VW) (buf : List α) (h : v.Inv buf.length) (op : MOp α) (hs : op.Sane) (d : List α)
+    (hd : op.spec v lim buf = .ok d) :
+    (d ++ (vflow v buf op).handed ++ (vflow v buf op).dropped ++ (vflow v buf op).leaked).Perm
+      (buf ++ (vflow v buf op).supplied) := by
+  have perm : ∀ op' : MOp α, op' = op → op'.permuting → vflow v buf op' = {} →
+      (d ++ (vflow v buf op').handed ++ (vflow v buf op').dropped ++ (vflow v buf op').leaked).Perm
+        (buf ++ (vflow v buf op').supplied) := by
+    intro op' he hp hm
+    subst he
+    rw [hm]
+    show (d ++ [] ++ [] ++ []).Perm (buf ++ [])
+    simp only [List.append_nil]
+    exact fl_spec_perm_v lim v buf h _ hs hp d hd
+  cases op with
+  | swap c1 r1 c2 r2 => exact perm _ rfl trivial rfl
+  | swapRows r1 r2 => exact perm _ rfl trivial rfl
+  | swapCols c1 c2 => exact perm _ rfl trivial rfl
+  | translate mc mr => exact perm _ rfl trivial rfl
+  | flipRows => exact perm _ rfl trivial rfl
+  | flipCols => exact perm _ rfl trivial rfl
+  | sortRow side row => exact perm _ rfl trivial rfl
+  | sortCol side col => exact perm _ rfl trivial rfl
+  | set c r x =>
+    simp only [MOp.spec] at hd
+    by_cases hc : c < v.numCols ∧ r < v.numRows
+    · rw [if_pos hc] at hd
+      injection hd with hd
+      subst hd
+      simp only [vflow, MOp.cellsWrittenV, if_pos hc]
+      exact fl_overwrite_flow_v v buf _ []
+    · rw [if_neg hc] at hd
+      cases hd
+  | setInRow r c x =>
+    simp only [MOp.spec] at hd
+    by_cases hc : c < v.numCols ∧ r < v.numRows
+    · rw [if_pos hc] at hd
+      injection hd with hd
+      subst hd
+      simp only [vflow, MOp.cellsWrittenV, if_pos hc]
+      exact fl_overwrite_flow_v v buf _ []
+    · rw [if_neg hc] at hd
+      cases hd
+  | fill x =>
+    simp only [MOp.spec] at hd
+    injection hd with hd
+    subst hd
+    simp only [vflow, MOp.cellsWrittenV]
+    exact fl_overwrite_flow_v v buf _ _
+  | copyFromSlice src =>
+    simp only [MOp.spec] at hd
+    by_cases hc : v.numCols * v.numRows = src.length
+    · rw [if_pos hc] at hd
+      injection hd with hd
+      subst hd
+      simp only [vflow, MOp.cellsWrittenV, if_pos hc]
+      exact fl_overwrite_flow_v v buf _ []
+    · rw [if_neg hc] at hd
+      cases hd
+  | copyFromTooDee src =>
+    simp only [MOp.spec] at hd
+    cases hsg : src.grid? with
+    | none => rw [hsg] at hd; cases hd
+    | some sg =>
+      rw [hsg] at hd
+      simp only at hd
+      by_cases hc : sg.length = v.numRows ∧ gcols sg = v.numCols
+      · rw [if_pos hc] at hd
+        injection hd with hd
+        subst hd
+        simp only [vflow, MOp.cellsWrittenV, hsg, if_pos hc]
+        exact fl_overwrite_flow_v v buf _ []
+      · rw [if_neg hc] at hd
+        cases hd
+  | copyWithin tl br dest =>
+    simp only [MOp.spec] at hd
+    by_cases hc : rectsFit v.numCols v.numRows tl br dest
+    · rw [if_pos hc] at hd
+      injection hd with hd
+      subst hd
+      simp only [vflow, MOp.cellsWrittenV, if_pos hc]
+      exact fl_overwrite_flow_v v buf _ []
+    · rw [if_neg hc] at hd
+      cases hd
+
+theorem fl_vflow_leaked (v : VW) (buf : List α) (op : MOp α) : (vflow v buf op).leaked = [] := by
+  unfold vflow
+  cases op.cellsWrittenV v buf with
+  | some f => rfl
+  | none => cases op <;> rfl
+
+/-- the flow of a call that panicked: a `set` gives back the value it was handed -/
+def errFlow (op : MOp α) : Flow α :=
+  match op with | .set _ _ x | .setInRow _ _ x => { supplied := [x], dropped := [x] } | _ => {}
+
+theorem fl_view_err (buf : List α) (op : MOp α) :
+    (buf ++ (errFlow op).handed ++ (errFlow op).dropped ++ (errFlow op).leaked).Perm (buf ++ (errFlow op).supplied) ∧
+    (errFlow op).leaked = [] := by
+  cases op <;> exact ⟨by simp [errFlow], rfl⟩
+
+/-- chaining two conservation steps: handed, dropped, leaked and supplied elements accumulate -/
+theorem fl_chain {A0 A1 A2 H1 H2 D1 D2 L1 L2 S1 S2 : List α}
+    (h1 : (A1 ++ H1 ++ D1 ++ L1).Perm (A0 ++ S1)) (h2 : (A2 ++ H2 ++ D2 ++ L2).Perm (A1 ++ S2)) :
+    (A2 ++ (H1 ++ H2) ++ (D1 ++ D2) ++ (L1 ++ L2)).Perm (A0 ++ (S1 ++ S2)) := by
+  have e0 : (A2 ++ (H1 ++ H2) ++ (D1 ++ D2) ++ (L1 ++ L2)).Perm (A2 ++ ((H1 ++ D1 ++ L1) ++ (H2 ++ D2 ++ L2))) := by
+    rw [List.append_assoc, List.append_assoc]
+    apply List.Perm.append_left
+    rw [← List.append_assoc]
+    exact ((fl_shuffle H1 H2 D1 D2).append_right _).trans (fl_shuffle (H1 ++ D1) (H2 ++ D2) L1 L2)
+  have e1 : (A2 ++ ((H1 ++ D1 ++ L1) ++ (H2 ++ D2 ++ L2))).Perm (A2 ++ (H2 ++ D2 ++ L2) ++ (H1 ++ D1 ++ L1)) := by
+    have := ow_perm_swap_tail A2 (H1 ++ D1 ++ L1) (H2 ++ D2 ++ L2)
+    rw [List.append_assoc A2 (H1 ++ D1 ++ L1) (H2 ++ D2 ++ L2)] at this
+    exact this
+  have h2' : (A2 ++ (H2 ++ D2 ++ L2)).Perm (A1 ++ S2) := by
+    rw [← List.append_assoc, ← List.append_assoc]; exact h2
+  have h1' : (A1 ++ (H1 ++ D1 ++ L1)).Perm (A0 ++ S1) := by
+    rw [← List.append_assoc, ← List.append_assoc]; exact h1
+  have e2 : (A2 ++ (H2 ++ D2 ++ L2) ++ (H1 ++ D1 ++ L1)).Perm (A1 ++ S2 ++ (H1 ++ D1 ++ L1)) := h2'.append_right _
+  have e3 : (A1 ++ S2 ++ (H1 ++ D1 ++ L1)).Perm (A1 ++ (H1 ++ D1 ++ L1) ++ S2) := ow_perm_swap_tail _ _ _
+  have e4 : (A1 ++ (H1 ++ D1 ++ L1) ++ S2).Perm (A0 ++ S1 ++ S2) := h1'.append_right _
+  have e5 : A0 ++ (S1 ++ S2) = A0 ++ S1 ++ S2 := (List.append_assoc ..).symm
+  rw [e5]
+  exact (((e0.trans e1).trans e2).trans e3).trans e4
+
+theorem fl_vflowRun_ok {m : Mode} {lim : Nat} {v : VW} {buf b : List α} {op : MOp α} (ops : List (MOp α))
+    (hr : (Recv.vmut v).run m lim buf op = .ok b) :
+    vflowRun m lim v buf (op :: ops) = (vflow v buf op).append (vflowRun m lim v b ops) := by
+  cases op <;> simp only [vflowRun, hr]
+
+theorem fl_vflowRun_err {m : Mode} {lim : Nat} {v : VW} {buf : List α} {op : MOp α} {er : Err} (ops : List (MOp α))
+    (hr : (Recv.vmut v).run m lim buf op = .error er) :
+    vflowRun m lim v buf (op :: ops) = errFlow op := by
+  cases op <;> simp only [vflowRun, hr, errFlow]
+
+/-- **a block of calls on a view conserves the elements of the root buffer and leaks nothing** (a call that panics ends the
+    block and only gives back what it was handed) -/
+theorem fl_vflowRun (m : Mode) (lim : Nat) (v : VW) (ops : List (MOp α)) (hs : ∀ op ∈ ops, op.Sane ∧ op.srcOk)
+    (buf : List α) (h : v.Inv buf.length) :
+    (((Recv.vmut v).runKeep m lim buf ops).1 ++ (vflowRun m lim v buf ops).handed ++ (vflowRun m lim v buf ops).dropped
+      ++ (vflowRun m lim v buf ops).leaked).Perm (buf ++ (vflowRun m lim v buf ops).supplied) ∧
+    (vflowRun m lim v buf ops).leaked = [] := by
+  induction ops generalizing buf with
+  | nil =>
+    refine ⟨?_, rfl⟩
+    show (buf ++ [] ++ [] ++ []).Perm (buf ++ [])
+    simp
+  | cons op ops ih =>
+    obtain ⟨hsop, hsrc⟩ := hs op (List.mem_cons_self ..)
+    have hrs := C04_run_view m lim v buf h op hsop hsrc
+    cases hr : (Recv.vmut v).run m lim buf op with
+    | error er =>
+      rw [hv_runKeep_err ops hr, fl_vflowRun_err ops hr]
+      exact fl_view_err buf op
+    | ok b =>
+      rw [hv_runKeep_ok ops hr, fl_vflowRun_ok ops hr]
+      rw [hrs] at hr
+      have hb : v.Inv b.length := by
+        rw [((C04_spec_frame lim v buf h op hsop).2.2 b hr).1]
+        exact h
+      obtain ⟨i1, i2⟩ := ih (fun op' hop' => hs op' (List.mem_cons_of_mem _ hop')) b hb
+      refine ⟨fl_chain (fl_vflow lim v buf h op hsop b hr) i1, ?_⟩
+      show (vflow v buf op).leaked ++ (vflowRun m lim v b ops).leaked = []
+      rw [fl_vflow_leaked, i2]
+      rfl
+
+/-- **a block of calls on a view of the array conserves elements and leaks nothing** -/
+theorem fl_step_viaView (e : HEnv) (t : TD α) (h : t.Inv) (s e' : Nat × Nat) (ops : List (MOp α))
+    (hop : (HOp.viaView s e' ops).wf) :
+    ((hstep e t (.viaView s e' ops)).data ++ (hflow e t (.viaView s e' ops)).handed ++ (hflow e t (.viaView s e' ops)).dropped
+      ++ (hflow e t (.viaView s e' ops)).leaked).Perm (t.data ++ (hflow e t (.viaView s e' ops)).supplied) ∧
+    (hflow e t (.viaView s e' ops)).leaked = [] := by
+  by_cases hok : (s.1 ≤ e'.1 ∧ s.2 ≤ e'.2) ∧ (e'.1 ≤ t.numCols ∧ e'.2 ≤ t.numRows)
+  · obtain ⟨v, hv, hinv, _, _, hst, _⟩ := hv_step_valid e t h s e' ops hok
+    rw [hst]
+    simp only [hflow, hv]
+    exact fl_vflowRun e.m e.lim v ops hop.2 t.data hinv
+  · obtain ⟨hv, hst, _⟩ := hv_step_invalid e t h s e' ops hop.1 hok
+    rw [hst]
+    simp only [hflow, hv]
+    exact ⟨by simp, trivial⟩
 
 end Toodee
